@@ -493,6 +493,7 @@ package internal
 //@   option props=[C13]
 //@   may-panic
 //@   requires f != nil && key != nil && key.Task != nil && f.providers != nil && f.receivers != nil && f.providers != f.receivers
+//@   ensures [C07,C14] the-sentinel-type-is-provided-by-this-function: tmapAt(f.providers, boxed("*go/types.Struct", key.Task.invokeType)) == boxed("int", value)
 //@   ensures [C14,C01] only-the-sentinel-type-gets-this-provider: forall(t, int, tmapAt(f.providers, t) == old(tmapAt(f.providers, t)) || (typeof(tmapAt(f.providers, t)) == typeid("int") && dataof(tmapAt(f.providers, t)) == value))
 
 //@ func (*compiler).validateInstrument
@@ -542,6 +543,21 @@ package internal
 //@   at call Set 5 ghost dup = ret != nil
 //@   at call errf 6 ghost dup = false
 //@   ensures@return4 [C14] accepted-flow-has-no-diagnostics: len(c.errors) == 0
+//@   ensures [C14] a-rejected-flow-has-a-diagnostic: implies(result == nil, len(c.errors) > 0)
+//   (one modifier record per recorded option - what -genmode modifier renders from)
+//@   at store modifiers 1 assert [C20] a-modifier-is-appended-for-the-recorded-option: len(val) >= 1
+//@   at store modifiers 2 assert [C20] a-modifier-is-appended-for-the-recorded-option: len(val) >= 1
+//@   at store modifiers 3 assert [C20] a-modifier-is-appended-for-the-recorded-option: len(val) >= 1
+//@   at store modifiers 4 assert [C20] a-modifier-is-appended-for-the-recorded-option: len(val) >= 1
+//@   at store modifiers 5 assert [C20] a-modifier-is-appended-for-the-recorded-option: len(val) >= 1
+//@   at store modifiers 6 assert [C20] a-modifier-is-appended-for-the-recorded-option: len(val) >= 1
+//@   at store modifiers 7 assert [C20] a-modifier-is-appended-for-the-recorded-option: len(val) >= 1
+//   (an Invoke task's sentinel type gets the task as its provider: C07)
+//@   ghost need bool = false
+//@   at call outputs 1 ghost need = fn.Task != nil && fn.Task.invokeType != nil
+//@   at call mustSetNoOutputProvider 1 ghost need = false
+//@   loop 4 invariant [C07,C14] an-invoke-tasks-sentinel-is-registered-before-the-next-function: !need
+//@   at call validateNoUnusedOutputTypes 1 pre assert [C07,C14] an-invoke-tasks-sentinel-is-registered: !need
 
 // C14, providers and unused values: the breadth-first walk from the flow's
 // results queues every dependency of every provider it meets; a needed type
